@@ -272,7 +272,7 @@ def raw_config(cfg):
         "states": list(cfg["states"]),
         "geographic_unit_types": types,
         "historical_election": [],
-        "features": [FEATURE],
+        "features": [FEATURE] + [f for f in cfg.get("features", []) if f not in (FEATURE, "baseline_normalized_margin")],
         "aggregates": aggs,
         "fixed_effect": fes,
     }
